@@ -190,8 +190,17 @@ def exhaustive_case(mon, idx, rng):
     return case, digits
 
 
-def random_case(mon, rng, depth, maxdim):
+def random_case(mon, rng, depth, maxdim, cellless=False):
     gen = DM.Gen(rng, maxdim=maxdim)
+    if cellless:
+        # an object that never holds a matrix cell: every shape it is given
+        # has no rows or no columns (it still has ports, frequencies and
+        # reference impedances) until the final resize exposes what is left
+        def shape(vd, gen=gen):
+            n = gen.dim(max(vd.rows, vd.cols), 1)
+            return (DM.T_UNDEF, 0, n) if rng.random() < 0.5 else \
+                (DM.T_UNDEF, n, 0)
+        gen.shape = shape
     case = Case(mon, gen)
     since_dump = 0
     while case.nops < depth:
@@ -235,7 +244,8 @@ def run_chunk(chunk_id, payload):
         ncase, depth, maxdim = params
         for i in range(ncase):
             rng = np.random.default_rng([seed, 15, 2, chunk_id, i])
-            case = random_case(mon, rng, depth, maxdim)
+            case = random_case(mon, rng, depth, maxdim,
+                               cellless=(i % 5 == 4))
             cid = "r%d.%d" % (chunk_id, i)
             cases.append((cid, case.script.text()))
             info[cid] = (case, ("rnd", chunk_id, i))
